@@ -219,6 +219,58 @@ class BuildQueryTask(Task):
              detail=f"{vr}: {got}")
 
 
+class SlotStr:
+    """the key, one slot per character of the ORIGINAL key; a slot is a list of alternatives (condition on the original character,
+    the characters that stand there now) - conditions of one slot are mutually exclusive and exhaustive.  str.replace(a, s) with a
+    single character `a` and any replacement text is exact on this representation, so escaping (one character becoming two) and the
+    ORDER of the replacements are modelled faithfully."""
+    ext_class = "str"
+
+    def __init__(self, slots):
+        self.slots = slots
+
+    @staticmethod
+    def of(chars):
+        return SlotStr([[(z3.BoolVal(True), [c])] for c in chars])
+
+    def truth(self, I):
+        return len(self.slots) > 0
+
+    def sym_len(self, I):
+        raise Unsupported("length of a pattern under construction")
+
+    def sym_eq(self, I, other):
+        if isinstance(other, str) and other == "":
+            return len(self.slots) == 0
+        raise Unsupported("comparison of a pattern under construction")
+
+    def sym_str(self, I):
+        return self
+
+    def sym_method(self, I, name, args, kw):
+        if name == "replace" and len(args) == 2 and isinstance(args[0], str) and len(args[0]) == 1 and isinstance(args[1], str):
+            a, rep = ord(args[0]), [ord(x) for x in args[1]]
+            out = []
+            for alts in self.slots:
+                new_alts = []
+                for cond, chars in alts:
+                    # every way the symbolic characters of this alternative can (not) be the replaced character
+                    variants = [(cond, [])]
+                    for ch in chars:
+                        nxt = []
+                        for c2, acc in variants:
+                            if isinstance(ch, int):
+                                nxt.append((c2, acc + (rep if ch == a else [ch])))
+                            else:
+                                nxt.append((z3.And(c2, ch == a), acc + rep))
+                                nxt.append((z3.And(c2, ch != a), acc + [ch]))
+                        variants = nxt
+                    new_alts += variants
+                out.append(new_alts)
+            return SlotStr(out)
+        raise Unsupported(f"str.{name} on a pattern under construction")
+
+
 class WildcardTask(Task):
     name = "_search_wildcard/pattern"
     functions = [f"{DB}:_search_wildcard"]
@@ -231,7 +283,7 @@ class WildcardTask(Task):
 
         def env_call(I, env, method, args, kw):
             if method == "like":
-                I.trace.append(Ev("like", (args[0],)))
+                I.trace.append(Ev("like", (args[0], kw.get("escape", args[1] if len(args) > 1 else None))))
                 return Env("criterion")
             if method in ("query", "filter"):
                 return Env("query")
@@ -243,7 +295,8 @@ class WildcardTask(Task):
     def body(self, I):
         P = f"C29/{DB}:_search_wildcard"
         n = I.choose(9, "length of the key")         # keys of 0..8 characters (the translation is character by character)
-        key = WildStr(CharStr.fresh(I, "key", n).chars)
+        kchars = CharStr.fresh(I, "key", n).chars
+        key = SlotStr.of(kchars)
         vr = ["LO", "PN"][I.choose(2, "VR")]
 
         class E:
@@ -251,31 +304,48 @@ class WildcardTask(Task):
                 return {"keyword": "PatientID", "VR": vr, "value": key, "VM": 1}.get(name, NotImplemented)
         kind, out = I.run_function(I.repo.func(f"{DB}:_search_wildcard"), [E(), Env("session")])
         I.ob(f"{P}/no-exception", kind == "return", detail=f"{kind}:{out!r}")
-        likes = [e.args[0] for e in I.trace if e.name == "like"]
+        likes = [e.args for e in I.trace if e.name == "like"]
         I.ob(f"{P}/one-LIKE-criterion", len(likes) == 1)
-        if len(likes) != 1 or not isinstance(likes[0], CharStr):
+        if len(likes) != 1 or n == 0:
             return
-        pat = likes[0]
-        if n == 0:
+        pat, esc = likes[0]
+        if not isinstance(pat, SlotStr) or len(pat.slots) != n:
+            I.ob(f"{P}/pattern-has-the-keys-length", False, detail=repr(pat))
             return
-        I.ob(f"{P}/pattern-has-the-keys-length", len(pat.chars) == n)
-        if len(pat.chars) != n:
-            return
-        meta = lambda c: z3.Or(c == ord("%"), c == ord("_"))          # noqa: E731
-        wild = lambda c: z3.Or(c == ord("*"), c == ord("?"))          # noqa: E731
-        I.ob(f"{P}/a-LIKE-metacharacter-exactly-where-the-key-has-a-wild-card:no-other-character-is-treated-as-a-wild-card",
-             z3.And(*[meta(p) == wild(k) for p, k in zip(pat.chars, key.chars)]))
-        I.ob(f"{P}/other-characters-are-copied-unchanged", z3.And(*[z3.Implies(z3.Not(wild(k)), p == k) for p, k in zip(pat.chars, key.chars)]))
-        I.ob(f"{P}/*-becomes-any-sequence-and-?-becomes-any-one-character",
-             z3.And(*[z3.And(z3.Implies(k == ord("*"), p == ord("%")), z3.Implies(k == ord("?"), p == ord("_"))) for p, k in zip(pat.chars, key.chars)]))
-
-
-class WildStr(CharStr):
-    def sym_method(self, I, name, args, kw):
-        if name == "replace" and len(args) == 2 and all(isinstance(a, str) and len(a) == 1 for a in args):
-            a, b = ord(args[0]), ord(args[1])
-            return WildStr([z3.If(c == a, b, c) for c in self.chars])
-        return CharStr.sym_method(self, I, name, args, kw)
+        I.ob(f"{P}/pattern-has-the-keys-length", True)      # one slot per character of the key (an escaped character is one slot)
+        if esc is not None and not (isinstance(esc, str) and len(esc) == 1):
+            raise Unsupported(f"LIKE escape {esc!r}")
+        E_ = ord(esc) if esc else None
+        # how SQL's LIKE reads the characters of one slot: % and _ are wild cards unless preceded by the escape character; with an
+        # escape character declared, it must be followed by %, _ or itself
+        def reads(chars):
+            """(acts as a wild card: z3 Bool, matches literally exactly the character: z3 Int or None, well formed: z3 Bool)"""
+            if len(chars) == 1:
+                c = chars[0]
+                c = z3.IntVal(c) if isinstance(c, int) else c
+                is_meta = z3.Or(c == ord("%"), c == ord("_"))
+                lone_esc = z3.BoolVal(False) if E_ is None else c == E_
+                return is_meta, c, z3.Not(lone_esc), (c == ord("%"), c == ord("_"))
+            if len(chars) == 2 and E_ is not None:
+                c0, c1 = [z3.IntVal(c) if isinstance(c, int) else c for c in chars]
+                ok = z3.And(c0 == E_, z3.Or(c1 == ord("%"), c1 == ord("_"), c1 == E_))
+                return z3.BoolVal(False), c1, ok, (z3.BoolVal(False), z3.BoolVal(False))
+            return None
+        wild_ok, copy_ok, map_ok = [], [], []
+        for k, alts in zip(kchars, pat.slots):
+            kw_ = z3.Or(k == ord("*"), k == ord("?"))
+            for cond, chars in alts:
+                r = reads(chars)
+                if r is None:
+                    wild_ok.append(z3.Not(cond))
+                    continue
+                is_wild, lit, well, (any_seq, any_one) = r
+                wild_ok.append(z3.Implies(cond, z3.And(well, is_wild == kw_)))
+                copy_ok.append(z3.Implies(z3.And(cond, z3.Not(kw_)), lit == k))
+                map_ok.append(z3.Implies(cond, z3.And(z3.Implies(k == ord("*"), any_seq), z3.Implies(k == ord("?"), any_one))))
+        I.ob(f"{P}/a-LIKE-metacharacter-exactly-where-the-key-has-a-wild-card:no-other-character-is-treated-as-a-wild-card", z3.And(*wild_ok))
+        I.ob(f"{P}/other-characters-are-copied-unchanged", z3.And(*copy_ok))
+        I.ob(f"{P}/*-becomes-any-sequence-and-?-becomes-any-one-character", z3.And(*map_ok))
 
 
 class Crit:
@@ -446,7 +516,9 @@ class EngineSemanticsTask(FiniteTask):
     def check(self, repo, emit):
         fw = repo.func(f"{DB}:_search_wildcard").node
         ops = [n.func.attr for n in ast.walk(fw) if isinstance(n, ast.Call) and isinstance(n.func, ast.Attribute) and n.func.attr in ("like", "ilike", "op", "regexp_match")]
-        folds = ops == ["like"] and not any(isinstance(n, ast.keyword) and n.arg == "escape" for n in ast.walk(fw))
+        # LIKE (and ILIKE) fold ASCII case in SQLite whatever else is passed (an ESCAPE clause does not change that); only another
+        # operator (GLOB, REGEXP through .op()/regexp_match) would be case-sensitive
+        folds = bool(ops) and all(o in ("like", "ilike") for o in ops)
         emit(f"C29/{DB}:_search_wildcard/wild-card-matching-is-case-sensitive-for-keys-that-are-not-person-names", not folds,
              detail="the criterion is column.like(pattern): SQLite's LIKE folds ASCII case for every column, not only for PN")
         fq = repo.func(f"{DB}:_search_qr").node
@@ -468,5 +540,5 @@ def replay(rec):
 LEVEL_TEXT = ("contract-based with an assumed SQL engine: symbolic contract on _check_identifier vs the PS3.4 hierarchy rule, dispatch contract "
               "on build_query vs C.2.2.2, character-level contract on the LIKE pattern of _search_wildcard; the meaning of the criteria under "
               "the assumed SQLite contract (case folding, instance rows) is recorded as refuted obligations.")
-LEVEL_NOTE = "level 'other': SQL engine assumed; three open known findings ('%'/'_' act as wild cards, LIKE folds case, one response per instance)."
+LEVEL_NOTE = "level 'other': SQL engine assumed; two open known findings (LIKE folds case, one response per instance)."
 TECHNIQUE = "deductive: AST->VC (z3) on the query-construction functions with character-level strings; SQL semantics assumed; findings replayed on in-memory SQLite"
